@@ -95,10 +95,13 @@ E1_TRUST = ("Trusted base of every closed-loop verdict: the simulated API server
             "real validating webhook on user Rollout writes, owner-reference GC, watch fan-out through the real event handlers, BatchRelease watch predicate "
             "re-implemented) and the knob-respecting workload environment (CloneSet partition rounded up, native Deployment / ReplicaSet rolling update within "
             "maxSurge / maxUnavailable, pods become ready, status published with lag). Time mode A (zero grace): package grace defaults are 0 through hooks, so no "
-            "wait is ever observed. Built (kind, style) pairs: CloneSet/partition and Deployment/canary; providers: none, Ingress nginx, Gateway API.")
+            "wait is ever observed. Built (kind, style) pairs: CloneSet/partition, Deployment/canary and Deployment/blue-green (optionally with an HPA); providers: none, Ingress nginx, Gateway API.")
 
 E1_ASSUMPTIONS = [
-    "Workload kinds / styles exercised in the closed loop: CloneSet partition-style and native Deployment canary-style only (StatefulSet, DaemonSet, blue-green and partition-style Deployment are covered by the component checks C01b/C07c/C11/C17 only).",
+    "Workload kinds / styles exercised in the closed loop: CloneSet partition-style, native Deployment canary-style and native Deployment blue-green (StatefulSet, DaemonSet, blue-green CloneSet and partition-style Deployment are covered by the component checks C01b/C07c/C11/C17 only).",
+    "Blue-green environment limits: no proportional scaling across two active ReplicaSets, so blue-green runs are never scaled mid-release; availability is judged with the Deployment's minReadySeconds, not per ReplicaSet.",
+    "History actions beyond reconcile / environment / user: 'settle' (controllers and environment run fairly until they wait), 'fault' (the N-th controller call, or the N-th call of a given kind/verb, fails or the process crashes after it), and per-check bursts that put a template change right behind a step transition.",
+    "Listed findings are excluded by construction and counted (see known_findings.json): in the user model (template change while finalising, third template on a partition-style workload with traffic routing or during a blue-green release, scale across the size at which a traffic step covers the whole workload, exit before the BatchRelease took the workload over, CloneSet rollback the finder cannot recognise, plan edit raising the replicas of the upgraded current step, plan edit plus jump-to-self), in the generator (gateway or blue-green-last-step shapes) and in the schedule (a BatchRelease reconcile that would resume a superseded release on a revision the Rollout has not adopted). Exclusions of findings that can surface through one property's monitor only are active only in checks asserting that property.",
     "Traffic providers exercised in the closed loop: none, Ingress class nginx, Gateway API HTTPRoute (mse/alb/higress and custom Lua providers by C14/C15 only).",
     "Time mode A: defaultGracePeriodSeconds (rollout, trafficrouting controller, traffic manager) set to 0 through build-tag hooks; pause durations are 0 or manual; a non-zero RequeueAfter counts as a requested requeue.",
     "The user approves only while the stored state is StepPaused (as kubectl-kruise rollout approve does); rollout-id is written to workload LABELS (documented place).",
@@ -134,13 +137,23 @@ CHECKS["C04"] = _e1_entry("No request routed into a void.", "c04-no-void", "Test
     "a release reached step >= 1 with canary Service generation on.")
 CHECKS["C04"]["subchecks"].append({"name": "c04-task-chains", "pkg": "pchains", "test": "TestC04TaskChains", "mode": "plain", "quick": rp(1, 1, timeout=120), "thorough": rp(1, 1, timeout=120)})
 CHECKS["C10"] = _e1_entry("Rollback and supersession.", "c10-cancel", "TestC10RollbackFirst",
-    "always a provider; rollback (template back to v1) or supersession (v3/v4) injected at a drawn point; cancel monitor on the write log.",
-    "a rollback or new release happened after step >= 1.")
+    "always a provider; rollbacks and superseding releases at drawn points, plus 'settle' actions and bursts (settle, approve, k reconciles, rollback|release) that place the template change right behind a step transition. "
+    "A template change while the Rollout is Progressing (InRolling / Paused) is classified from the history: rollback = the template last seen Healthy AND the revision the Rollout records as stable; supersede = a third template. "
+    "Oracles on the write log while such a cancel is in flight: (1) every controller write that removes new-revision pods or hands the workload back (BatchRelease deleted or un-partitioned, control-info removed, workload un-paused, canary Deployment deleted or scaled down) "
+    "must find the gateway free of any canary share / match; (2) when the progressing condition of a rolled-back release ends, Succeeded must be False; (3) when the Rollout records the superseding revision it must be at step 1; "
+    "(4) between a supersession and that restart the BatchRelease controller must not raise the workload's exposure beyond step one; (5) blue-green: after a third template the controllers must not un-pause the Deployment or widen its surge.",
+    "a rollback / supersession hit a progressing release and at least one oracle judged something (hand-back write while armed with canary traffic, rollback completion, supersession restart).")
 CHECKS["C10"]["subchecks"].append({"name": "c10-task-chains", "pkg": "pchains", "test": "TestC10TaskChains", "mode": "plain", "quick": rp(1, 1, timeout=120), "thorough": rp(1, 1, timeout=120)})
 CHECKS["C18"] = _e1_entry("Finalizers guard teardown.", "c18-rollout-finalizer", "TestC18Finalizers",
-    "deletion requested at a drawn point, controller restarts allowed; monitor: the write that removes the Rollout finalizer (or the object) must find no residue (no canary share / canary reference, no canary Service / Ingress, stable Service un-pinned, workload without in-progressing / control-info, BatchRelease gone, canary Deployment released); fair completion must end with the object gone.",
+    "deletion requested at a drawn point, controller restarts allowed, and injected faults: a 'fault' action arms one fault at a time - the N-th controller call from now fails (API error before the call, lost response after a write, conflict) or the process crashes after the N-th write, or the N-th call of a drawn kind/verb (e.g. Deployment/update, BatchRelease/delete, Service/patch) fails - drawn anywhere and, with probability 2/3, right behind a delete / disable / rollback. "
+    "Monitors: the write that removes the Rollout finalizer (or the object) must find no residue (no canary share / canary reference, no canary Service / Ingress, stable Service un-pinned, workload without in-progressing / control-info, BatchRelease gone, no canary Deployment still holding the BatchRelease's protection finalizer); the write that removes the BatchRelease's own finalizer must find the workload released and no canary Deployment still holding that finalizer; fair completion must end with the object gone. TrafficRouting objects are not part of the closed loop; their finalizer is decided by the component check c18-trafficrouting-finalizer.",
     "the Rollout was deleted after step >= 1.")
 CHECKS["C18"]["level"] = "fault_enumeration"
+CHECKS["C18"]["subchecks"].append({"name": "c18-trafficrouting-finalizer", "pkg": "p18t", "test": "TestC18TrafficRoutingFinalizer", "quick": rp(16000, 8, timeout=600, shrinktime="30s"), "thorough": rp(320000, 16, timeout=3000, shrinktime="120s")})
+CHECKS["C18"]["rule"] += (" TrafficRouting (c18-trafficrouting-finalizer, component level): the real TrafficRoutingReconciler on the controller-runtime fake client (objects with finalizers stay until the last one is removed), "
+                          "grace 0 / 1 / 3 s with the grace package's clock ticked through the verif hook; generated histories of reconcile / tick / a Rollout starts or stops using it (progressing finalizer) / delete / 'the N-th API call from now fails'; "
+                          "after every step: if the deleted TrafficRouting is gone or has lost rollouts.kruise.io/trafficrouting, no canary Ingress may be left; after a fair completion the deleted object must be gone. Non-trivial: deleted after the canary Ingress existed.")
+CHECKS["C18"]["assumptions"] = list(CHECKS["C18"]["assumptions"]) + ["c18-trafficrouting-finalizer: one TrafficRouting with an Ingress (nginx) reference used by at most one Rollout; Gateway / custom references and sharing between Rollouts are not generated."]
 
 # C01: arithmetic (parith) + closed loop
 CHECKS["C01"] = dict(_parith["MAIN"]["C01"])
